@@ -111,13 +111,32 @@ pub fn register_names(args: &[String]) {
     use std::io::Write;
     let out = arg_val(args, "--out").expect("--out");
     let mut w = std::io::BufWriter::new(std::fs::File::create(out).unwrap());
-    for name in ["__min", "__x", "__", "_x", "x__", "a", "_", "a__b", "___", "log", "__sort", "__to_array", "filter", "std"] {
+    for name in ["__min", "__max", "__x", "__", "_x", "x__", "a", "_", "a__b", "___", "log", "__sort", "__to_array", "filter", "std"] {
         let mut vm = cao_lang::prelude::Vm::new(()).unwrap();
         let f = |_vm: &mut cao_lang::prelude::Vm<()>| -> Result<cao_lang::prelude::Value, cao_lang::prelude::ExecutionErrorPayload> {
             Ok(cao_lang::prelude::Value::Nil)
         };
+        let f = move |vm: &mut cao_lang::prelude::Vm<()>| -> Result<cao_lang::prelude::Value, cao_lang::prelude::ExecutionErrorPayload> {
+            let _ = f(vm);
+            Ok(cao_lang::prelude::Value::Integer(777))
+        };
         let accepted = vm.register_native_function(name, f).is_ok();
+        // what a script sees afterwards: is the name callable, and does the library still do its own work?
+        let p = P { fns: vec![F { name: "main".into(), params: vec![], body: vec![
+                        setv("t", card("Array", vec![int(1), int(3), int(2)])),
+                        setg("v", card("GetProperty", vec![call("std.max", vec![read("t")]), strlit("value")])),
+                        setg("s", card("Len", vec![call("std.sorted", vec![read("t")])])),
+                        setg("mn", card("GetProperty", vec![call("std.min", vec![read("t")]), strlit("value")])),
+                        setg("r", native(name, vec![]))] }], natives: vec![], imports: vec![] };
+        let (mut callable, mut lib_ok) = (false, false);
+        if let Ok(c) = cao_lang::compiler::compile(p.to_module(), None) {
+            let res = vm.run(&c);
+            let rd = |n: &str| vm.read_var_by_name(n, &c.variables);
+            lib_ok = rd("v") == Some(cao_lang::prelude::Value::Integer(3)) && rd("s") == Some(cao_lang::prelude::Value::Integer(3))
+                && rd("mn") == Some(cao_lang::prelude::Value::Integer(1));
+            callable = res.is_ok() && rd("r") == Some(cao_lang::prelude::Value::Integer(777));
+        }
         let chars: Vec<String> = name.chars().map(|c| c.to_string()).collect();
-        writeln!(w, "{}", json!({"chars": chars, "accepted": accepted})).unwrap();
+        writeln!(w, "{}", json!({"chars": chars, "accepted": accepted, "callable": callable, "lib_ok": lib_ok})).unwrap();
     }
 }
